@@ -244,8 +244,9 @@ func toInt32(value Value) int32 {
 		return 0
 	}
 
+	// Reduce modulo 2^32 first: the conversion of a float64 outside the int64 range is not defined.
 	// Convert to int64 before int32 to force correct wrapping.
-	return int32(int64(floatValue))
+	return int32(int64(math.Mod(floatValue, 4294967296)))
 }
 
 func toUint32(value Value) uint32 {
@@ -267,8 +268,9 @@ func toUint32(value Value) uint32 {
 		return 0
 	}
 
+	// Reduce modulo 2^32 first: the conversion of a float64 outside the int64 range is not defined.
 	// Convert to int64 before uint32 to force correct wrapping.
-	return uint32(int64(floatValue))
+	return uint32(int64(math.Mod(floatValue, 4294967296)))
 }
 
 // ECMA 262 - 6.0 - 7.1.8.
@@ -287,8 +289,9 @@ func toUint16(value Value) uint16 {
 		return 0
 	}
 
+	// Reduce modulo 2^16 first: the conversion of a float64 outside the int64 range is not defined.
 	// Convert to int64 before uint16 to force correct wrapping.
-	return uint16(int64(floatValue))
+	return uint16(int64(math.Mod(floatValue, 65536)))
 }
 
 // toIntSign returns sign of a number converted to -1, 0 ,1.
